@@ -246,6 +246,7 @@ def value_menu():
         ("rdate", vDDDLists([z, z + timedelta(days=1)])), ("exdate", vDDDLists([date(2024, 1, 2)])),
         ("categories", vCategory(["a,b", "c"])), ("rrule", vRecur(freq="weekly", byday=["MO", "-1SU"], until=datetime(2025, 1, 1, tzinfo=utc))),
         ("geo", vGeo((1.5, -2.5))), ("x-geo-zeros", vGeo((0.0, -0.0))), ("x-float-negzero", vFloat(-0.0)), ("tzoffsetto", vUTCOffset(timedelta(hours=-5, minutes=-30))), ("x-time", vTime(time(1, 2, 3))),
+        ("x-time-zoned", vTime(time(9, 0, tzinfo=BERLIN))), ("x-time-utc", vTime(time(9, 0, tzinfo=utc))),
         ("x-inline", vInline("raw,value")),
     ]
 
@@ -559,7 +560,7 @@ def run(ctx):
     seeds = range(8) if ctx.quick else range(64)
     ctx.rule = (f"E-hist: (A) all permutations of all subsets (<= {kmax} of 7) of distinct property names on 5 component kinds; "
                 "(A') all 144 insertion orders of a 4-level nested tree (calendar > event > alarm > unknown component) serialised with sorting on and off; (B) all permutations of all subsets (<=4) of 7 parameters; (C) all 120 interleavings of 3 repeated values (also with falsy first/last values: empty text, integer 0) / 3 "
-                "subcomponents with 2 other properties; (D) purity on a 28-value-class menu x {no params, a parameter, parameters a writer might tidy up: TZID=UTC / VALUE / empty / list} x nesting x sorted flag; "
+                "subcomponents with 2 other properties; (D) purity on a 30-value-class menu x {no params, a parameter, parameters a writer might tidy up: TZID=UTC / VALUE / empty / list} x nesting x sorted flag; "
                 f"(E) BEGIN/END balance of every output; (F) {len(seeds)} PYTHONHASHSEED values, one digest over ~250 trees each. "
                 "non-trivial = at least two names/parameters or any repeated/purity case.")
     ctx.bounds = {"max_subset": kmax, "pool": 7, "hash_seeds": len(seeds)}
